@@ -2,7 +2,7 @@
 import histcheck
 
 PID = "C13"
-COMMON = ["hist", "-proj", "dispute,hold", "-boundary", "-gov", "-jumps", "-valstatus", "-dbias", "3", "-stories", "100", "-maxops", "6"]
+COMMON = ["hist", "-fanout", "-proj", "dispute,hold", "-boundary", "-gov", "-jumps", "-valstatus", "-dbias", "3", "-stories", "100", "-maxops", "6"]
 
 def run(tier, seed, replay):
     return histcheck.run(
